@@ -29,6 +29,30 @@ pub mod streaming_kzg {
 //@end
     }
 //@lemma props=C02
+    // C02: for a fixed point, value and proof, at most one commitment is accepted; for a fixed commitment, value and non-trivial proof, at most one point
+    pub proof fn lemma_skzg_commitment_unique(vk: &VerifierKey, c1: &Commitment, c2: &Commitment, alpha: FS, v: FS, proof: &EvaluationProof)
+        requires vk.powers_of_g2@[0]@ != f_zero(), skzg_relation(vk, c1, alpha, v, proof), skzg_relation(vk, c2, alpha, v, proof)
+        ensures c1.0@ == c2.0@
+    {
+        let g = vk.powers_of_g@[0]@; let h = vk.powers_of_g2@[0]@;
+        lemma_mul_cancel(f_sub(c1.0@, f_mul(g, v)), f_sub(c2.0@, f_mul(g, v)), h);
+        lemma_sub_cancel_right(c1.0@, c2.0@, f_mul(g, v));
+    }
+//@lemma props=C02
+    pub proof fn lemma_skzg_point_unique(vk: &VerifierKey, c: &Commitment, a1: FS, a2: FS, v: FS, proof: &EvaluationProof)
+        requires vk.powers_of_g2@[0]@ != f_zero(), proof.0@ != f_zero(), skzg_relation(vk, c, a1, v, proof), skzg_relation(vk, c, a2, v, proof)
+        ensures a1 == a2
+    {
+        let h = vk.powers_of_g2@[0]@; let t = f_mul(vk.powers_of_g2@[1]@, f_one());
+        let r1 = f_add(f_mul(h, f_neg(a1)), t); let r2 = f_add(f_mul(h, f_neg(a2)), t);
+        ax_mul_comm(proof.0@, r1); ax_mul_comm(proof.0@, r2);
+        lemma_mul_cancel(r1, r2, proof.0@);
+        lemma_add_cancel(f_mul(h, f_neg(a1)), f_mul(h, f_neg(a2)), t);
+        ax_mul_comm(h, f_neg(a1)); ax_mul_comm(h, f_neg(a2));
+        lemma_mul_cancel(f_neg(a1), f_neg(a2), h);
+        lemma_neg_neg(a1); lemma_neg_neg(a2);
+    }
+//@lemma props=C02
     // C02: for a fixed commitment, point and proof, at most one value is accepted
     pub proof fn lemma_skzg_value_unique(vk: &VerifierKey, c: &Commitment, alpha: FS, v1: FS, v2: FS, proof: &EvaluationProof)
         requires vk.powers_of_g@[0]@ != f_zero(), vk.powers_of_g2@[0]@ != f_zero(), skzg_relation(vk, c, alpha, v1, proof), skzg_relation(vk, c, alpha, v2, proof)
@@ -120,6 +144,14 @@ pub mod multilinear_pc {
             assert(g2prep_views(pairing_rights@) =~= g2views(proof.proofs@));
         }
 //@end
+    }
+//@lemma props=C02
+    pub proof fn lemma_mlpc_commitment_unique(vk: &VerifierKey, c1: &Commitment, c2: &Commitment, point: Seq<Fr>, v: FS, proof: &Proof)
+        requires vk.h@ != f_zero(), mlpc_relation(vk, c1, point, v, proof), mlpc_relation(vk, c2, point, v, proof)
+        ensures c1.g_product@ == c2.g_product@
+    {
+        lemma_mul_cancel(f_sub(c1.g_product@, f_mul(vk.g@, v)), f_sub(c2.g_product@, f_mul(vk.g@, v)), vk.h@);
+        lemma_sub_cancel_right(c1.g_product@, c2.g_product@, f_mul(vk.g@, v));
     }
 //@lemma props=C02
     // C02: for a fixed commitment, point and proof, at most one value is accepted
